@@ -154,6 +154,21 @@ def parseOp (s : String) : Option Op :=
   | ["uo", h] => (nat? h).map .unregObs
   | _ => none
 
+/-- Shape `Z=m` (one CTrait object bound to several names of the class): `sib <name> <v>` assigns an accepted
+value to ANOTHER name sharing the definition.  The attribute under test is a different attribute of the object:
+nothing of its state moves and none of its handlers is called (`none` = such a step). -/
+def parseOpSib (s : String) : Option (Option Op) :=
+  match words s with
+  | ["sib", _, v] => (nat? v).map fun _ => none
+  | _ => (parseOp s).map some
+
+def runTraceSib (E : Env) (t : TraitCore) : OSt → List (Option Op) → List (Res × OSt)
+  | _, [] => []
+  | s, none :: ops => ({}, s) :: runTraceSib E t s ops
+  | s, some op :: ops =>
+    let r := step E t s op
+    r :: runTraceSib E t r.2 ops
+
 def showOptId : Option Id → String
   | none => "-"
   | some v => toString v
@@ -198,14 +213,17 @@ def handleC02 (tf pf hf opsf : String) : String :=
       | (.ok t, c) => some (t, c)
       | (.error _, _) => none
     else if shape == "t" then some (base, {})     -- the same TraitType instance bound to a second name
+    else if shape == "m" then some (base, {})     -- the same CTrait object bound to several names, each with its own
+                                                  -- static handlers: the final pass of update_traits_class_dict clones it
+                                                  -- per name, so the attribute has its own definition (flags kept)
     else some (base, {})
-  match start, (fields opsf ";").mapM parseOp with
+  match start, (fields opsf ";").mapM parseOpSib with
   | some (t, c), some ops =>
     let statics := (fields (look H "S") ",").filterMap fun s => ((s.drop 1).toString.toNat?)
     let s0 : OSt :=
       { cn := if statics.isEmpty then none else some (statics.map fun h => ⟨.static, h, 1⟩)
         ctx := c }
-    " ; ".intercalate (showTrace s0 (runTrace E t s0 ops))
+    " ; ".intercalate (showTrace s0 (runTraceSib E t s0 ops))
   | _, _ => "bad-case"
 
 /-! ### C10 -/
